@@ -152,7 +152,9 @@ def sessions(tier: str, seed: int, kinds=vloop.CLIENTS):
                     log, raw2 = cf.run(kind, plan, fault_injector(kind, fault, k, None, plan))
                     logs.append(log)
                     meta.append((kind, fault, refuse, "ok", f"step{k - s_conn:+d}"))
-                    if fault in ("eof", "reset", "timeout"):
+                    # (the serial client writes a configuration packet inside its connect step; a write that fails there
+                    #  is an attempt failing after the port was opened - a step the model, shaped after the TCP clients, lacks)
+                    if fault in ("eof", "reset", "timeout") or (fault == "write-error" and kind != "waveshare"):
                         CONF.append(("ok", cf.conformance_log(raw2), f"{kind} {fault} step{k - s_conn:+d} refuse={refuse}"))
                 if fault == "sorry":
                     continue            # the banner is sent instead of traffic, not inside a packet
